@@ -268,6 +268,18 @@ def _pinned_e2e_long():
 
 
 def _e2e_strategy():
+    return _e2e_base().map(_with_dtype)
+
+
+def _with_dtype(cfg):
+    # a third of the runs on data of another element type / byte order: the modes must still agree (and all complete)
+    pick = (cfg["data_seed"] // 7) % 9
+    if pick < 4 and not cfg.get("reuse_buffers") and not cfg.get("series_as_views"):
+        cfg = dict(cfg, series_dtype=[">f8", "float32", ">f4", "float16"][pick], prior_calls_on_same_arrays=False)
+    return cfg
+
+
+def _e2e_base():
     return gen.e2e_config(front=("single", "single", "joint"), betas=(0.0, 0.5, 2.0, 10.0, 50.0), limits=(1, 2, 3, 5))
 
 
